@@ -222,6 +222,16 @@ def checkArray (draft : Draft) (rec : J → J → Bool) (schema : J) (xs : List 
   ((xs.zip (tupleSchemas draft schema)).all fun (x, s') => rec s' x) &&
   (match restSchema draft schema with
    | some s' => (xs.drop (tupleSchemas draft schema).length).all fun x => rec s' x
+   | none => true) &&
+  -- `contains`: at least one element (draft-07); between minContains (default 1) and maxContains elements (2020-12)
+  (match schema.get "contains" with
+   | some s' =>
+     let n := (xs.filter fun x => rec s' x).length
+     match draft with
+     | .d7 => decide (1 ≤ n)
+     | .d2020 =>
+       (match (schema.get "minContains").bind natOf with | some m => decide (m ≤ n) | none => decide (1 ≤ n)) &&
+       (match (schema.get "maxContains").bind natOf with | some m => decide (n ≤ m) | none => true)
    | none => true)
 
 def checkObject (rec : J → J → Bool) (schema : J) (kvs : List (String × J)) : Bool :=
@@ -235,7 +245,11 @@ def checkObject (rec : J → J → Bool) (schema : J) (kvs : List (String × J))
       | some s' => rec s' x
       | none => match schema.get "additionalProperties" with
         | some s' => rec s' x
-        | none => true)
+        | none => true) &&
+  -- `propertyNames`: every member name, as a string instance
+  (match schema.get "propertyNames" with
+    | some s' => kvs.all fun (k, _) => rec s' (.str k)
+    | none => true)
 
 def checkCombinators (rec : J → J → Bool) (schema v : J) : Bool :=
   (match schema.get "allOf" with
@@ -249,6 +263,12 @@ def checkCombinators (rec : J → J → Bool) (schema v : J) : Bool :=
     | _ => true) &&
   (match schema.get "not" with
     | some s' => !rec s' v
+    | none => true) &&
+  -- `if` / `then` / `else`: `then` binds instances that satisfy `if`, `else` the others; without `if` both are ignored
+  (match schema.get "if" with
+    | some c =>
+      if rec c v then (match schema.get "then" with | some t => rec t v | none => true)
+      else (match schema.get "else" with | some e => rec e v | none => true)
     | none => true)
 
 def checkKeywords (draft : Draft) (rec : J → J → Bool) (schema v : J) : Bool :=
